@@ -427,7 +427,7 @@ def check_recipe(ctx, recipe, pending, tag, created=None):
     d = str(ctx.tmp / f"r{tag}")
     os.makedirs(d, exist_ok=True)
     case = {"fn": "recipe", "steps": recipe}
-    outcome, files = G.run_recipe(d, recipe, limit=60)
+    outcome, files = G.run_recipe(d, recipe, limit=25)
     kinds = "+".join(st["op"] + (":" + st["input"] if st["op"] == "create" else "") for st in recipe)
     if outcome == "timeout":
         ctx.extra["recipe_timeouts"] = ctx.extra.get("recipe_timeouts", 0) + 1
@@ -492,7 +492,7 @@ def e2e(ctx):
     pending, created = [], []
     for k, r in enumerate(recipes):
         check_recipe(ctx, r, pending, k, created)
-        if ctx.extra.get("recipe_timeouts", 0) >= 3:
+        if ctx.extra.get("recipe_timeouts", 0) >= 2:
             # a producer that hangs (mutated code) would otherwise eat the whole time budget
             ctx.extra["recipes_skipped_after_timeouts"] = len(recipes) - k - 1
             break
